@@ -313,6 +313,12 @@ func histories(sameClient bool) func() {
 			if err := pW.SetProperty(value.String("level"), value.String("x")); err == nil {
 				vrt.Failf("history-wrongly-typed-write-accepted", "setProperty(level, \"x\") succeeded (%s)", ctx())
 			}
+			// the same value again: still an accepted write, still one event
+			if err := pW.SetLevel(n); err != nil {
+				vrt.Failf("history-write-refused", "SetLevel(%d) a second time failed (%s): %v", n, ctx(), err)
+			} else {
+				accepted(n)
+			}
 			n++
 			if err := w.Root.Helper.UpdateLevel(n); err != nil {
 				vrt.Failf("history-write-refused", "service-side UpdateLevel(%d) failed (%s): %v", n, ctx(), err)
@@ -349,8 +355,24 @@ func histories(sameClient bool) func() {
 			}
 		}
 		a := subscribe("A", pA)
+		// the same client also follows a signal of the same object and stops
+		// following it later: its property subscription is not affected
+		cancelTick, tickCh, tickErr := pA.SubscribeTick()
+		if tickErr != nil {
+			vrt.Failf("harness/subscribe-tick", "%v", tickErr)
+		} else {
+			vrt.GoNamed("drain-tick", func() {
+				for range tickCh {
+				}
+			})
+		}
 		vrt.Quiesce()
 		open["A"] = true
+		step()
+		if tickErr == nil {
+			cancelTick()
+			vrt.Quiesce()
+		}
 		step()
 		b := subscribe("B", pB)
 		vrt.Quiesce()
@@ -389,10 +411,8 @@ func histories(sameClient bool) func() {
 			}
 			if fmt.Sprint(win.got) != fmt.Sprint(expect[win.name]) {
 				clause := "history-events-differ/"
-				for i, v := range win.got {
-					if i > 0 && win.got[i-1] == v {
-						clause = "history-event-duplicated/"
-					}
+				if len(win.got) > len(expect[win.name]) {
+					clause = "history-event-duplicated/"
 				}
 				vrt.Failf(clause+win.name, "sequential history (%s): subscriber %s received %v, the writes accepted while it was subscribed are %v", ctx(), win.name, win.got, expect[win.name])
 			}
